@@ -18,6 +18,10 @@ fn main() {
         let name = j["exploration"].as_str().unwrap_or("").to_string();
         let init = j["init"].as_str().unwrap_or("initial").to_string();
         let path: Vec<String> = j["path"].as_array().map(|a| a.iter().map(|x| x.as_str().unwrap_or("").to_string()).collect()).unwrap_or_default();
+        if init == "case" {
+            println!("REPLAY case={:?} (the enumerations of this check are run again; violations of this case are printed)", path);
+            report::REPLAY_CASE.set(path.clone()).ok();
+        }
         bfs::REPLAY.set((name, init, path)).ok();
     }
     e3::SEED.store(seed, std::sync::atomic::Ordering::Relaxed);
@@ -90,6 +94,9 @@ fn main() {
     }
     if bfs::REPLAY.get().is_none() {
         rep.check_required();
+    }
+    if report::REPLAY_CASE.get().is_some() {
+        println!("REPLAY done: {} violation(s) raised for this case", report::REPLAY_HITS.load(std::sync::atomic::Ordering::Relaxed));
     }
     let j = rep.to_json();
     std::fs::write(&out, serde_json::to_string_pretty(&j).unwrap()).expect("write result");
